@@ -365,6 +365,9 @@ func c04HookFailure(c *Ctx) {
 			if !ok {
 				return
 			}
+			if _, isLocal := st.Addr.(*ssa.Alloc); isLocal {
+				return // a local variable (e.g. an alias 's := h.subscriber'), not the handler
+			}
 			a := c.E(st.Addr)
 			root := a
 			for d := 0; d < 4 && root != nil && root.Op == "field" && len(root.Args) == 1; d++ {
